@@ -132,3 +132,28 @@ M('C02', 'n-inner-override-ignored', (PFI, "            if n_inner_samples is No
 M('C02', 'two-feature-subsets', (PFI, "feature_subset = [feature]", "feature_subset = [feature, self.feature_names[0]] if feature != self.feature_names[0] and self.seen_samples % 5 == 4 else [feature]"))
 M('C02', 'wrong-smoothing-weight', (ES, "(1 - self.alpha) * self.tracked_value + self.alpha * value_i", "(1 - self.alpha) * self.tracked_value + self.alpha * value_i * (1 if self.N else 2)"))
 M('C02', 'python-mean', (PFI, "avg_loss = np.mean(losses)", "avg_loss = sum(losses) / len(losses)"), kind='equivalent')
+
+# ---- C15 ---------------------------------------------------------------------------------------
+BATCH = 'ixai/explainer/sage/batch.py'
+MARG = 'ixai/imputer/marginal_imputer.py'
+M('C15', 'revert-fix-default-alpha', (EB, "assert 0. < self._smoothing_alpha <= 1., f", "assert 0. < smoothing_alpha <= 1., f"))
+M('C15', 'revert-fix-keyword-loss', (BATCH, "            loss_previous = self._loss_function(y_i, marginal_prediction)\n            features_not_in_s",
+                                     "            loss_previous = self._loss_function(y_true=y_i, y_prediction=marginal_prediction)\n            features_not_in_s"))
+M('C15', 'revert-fix-mixed-names-batch', (BATCH, """            permutation_chain = [self.feature_names[index] for index in
+                                 np.random.permutation(len(self.feature_names))]
+            loss_previous = self._loss_function(y_i, marginal_prediction)
+            features_not_in_s""", """            permutation_chain = np.random.permutation(self.feature_names)
+            loss_previous = self._loss_function(y_i, marginal_prediction)
+            features_not_in_s"""))
+M('C15', 'revert-fix-mixed-names-incremental', (INC, """            permutation_chain = [self.feature_names[index] for index in
+                                 np.random.permutation(len(self.feature_names))]""",
+   """            permutation_chain = np.random.permutation(self.feature_names)"""))
+M('C15', 'pfi-storage-before-explanation', (PFI, "        if self.seen_samples >= 1:\n            if n_inner_samples is None:",
+   "        if update_storage:\n            self._storage.update(x_i, y_i)\n            update_storage = False\n        if self.seen_samples >= 1:\n            if n_inner_samples is None:"))
+M('C15', 'sage-extra-model-evaluation', (INC, "            model_loss = self._loss_function(y_i, y_i_pred)", "            model_loss = self._loss_function(y_i, self._model_function(x_i))"))
+M('C15', 'imputer-updates-x-in-place', (MARG, "            prediction = self.model_function({**x_i, **sampled_values})",
+   "            _old = dict(x_i)\n            x_i.update(sampled_values)\n            prediction = self.model_function(x_i)\n            if len(sampled_values) < 2:\n                x_i.update(_old)"))
+M('C15', 'sage-update-flag-ignored-on-first', (INC, "        if update_storage:\n            self._storage.update(x_i, y_i)\n        return self.importance_values",
+   "        if update_storage or self.seen_samples == 3:\n            self._storage.update(x_i, y_i)\n        return self.importance_values"))
+M('C15', 'names-sorted-in-ctor', (EB, "        self.feature_names = feature_names\n        self.number_of_features", "        self.feature_names = feature_names\n        if len({type(n) for n in feature_names}) == 1:\n            feature_names.sort()\n        self.number_of_features"))
+M('C15', 'return-copy', (PFI, "        return self.importance_values\n", "        return dict(self.importance_values)\n"), kind='equivalent')
